@@ -80,6 +80,7 @@ class Exec(HeapMixin, ExprMixin, CallMixin, StmtMixin):
         self.qvars = []
         self.dec_ids = set()
         self.final_classes = set(getattr(reg, 'final_classes', ()))   # classes assumed not subclassed by users
+        self._cur_call = None
         self.laws = []               # enumeration laws of this path (for the `origin` proof device)
         self.class_facts = False     # emit `class_of(x) <: declared class` typing facts (only needed for isinstance)
         self._fact_ids = set()
@@ -275,6 +276,9 @@ class Exec(HeapMixin, ExprMixin, CallMixin, StmtMixin):
                 val = getattr(pm, name)
                 if callable(val) and hasattr(val, '__code__'):
                     return VFunc('specfn', fn=val)
+                import types as _types
+                if isinstance(val, _types.ModuleType):
+                    return VFunc('external', name=val.__name__, self=None)
                 if isinstance(val, bool):
                     return VBool(val)
                 if isinstance(val, int):
@@ -469,6 +473,10 @@ class Exec(HeapMixin, ExprMixin, CallMixin, StmtMixin):
         return self.from_terms([self.arr(('g', name), getattr(self, '_ghost_st', None))], ty.parse(t))
 
     def ghost_base(self, name):
+        if name == '$ov_has':
+            return z3.Const('G_ov_has', z3.ArraySort(I, z3.ArraySort(I, B)))
+        if name == '$ov_val':
+            return z3.Const('G_ov_val', z3.ArraySort(I, z3.ArraySort(I, I)))
         t = self.reg.ghosts[name]
         if t.startswith('map'):
             inner = t[4:-1]
@@ -729,6 +737,7 @@ class Exec(HeapMixin, ExprMixin, CallMixin, StmtMixin):
         fr = self.frame
         k = fr.call_ord if fr is not None else 0
         callee = fi.qualname
+        self.site_check([v for kk, v in list(env.items())[1:2]] or list(env.values())[:1], phase='pre')
         self.cur_spec_module_push(c)
         try:
             # 1. preconditions (and, for abstract callees, call-site monitors)
@@ -786,6 +795,7 @@ class Exec(HeapMixin, ExprMixin, CallMixin, StmtMixin):
                             sink(term)
                 if not self.qvars:
                     self.prune()
+                self.site_check([], result=result, phase='post')
                 return result
             exc, rd = excs[choice - 1]
             if rd.get('when') is not None:
@@ -819,13 +829,57 @@ class Exec(HeapMixin, ExprMixin, CallMixin, StmtMixin):
         self.cur_spec_module = self._csm.pop()
 
     # ------------------------------------------------------------------ externals
+    def call_ordinal(self, node):
+        fi = self.frame.fi if self.frame is not None else None
+        if fi is None or node is None:
+            return None
+        cache = getattr(fi, '_call_ords', None)
+        if cache is None:
+            cache = {}
+
+            def visit(n):
+                for c in ast.iter_child_nodes(n):
+                    if isinstance(c, ast.Call):
+                        cache[id(c)] = len(cache)
+                    visit(c)
+            visit(fi.node)
+            fi._call_ords = cache
+        return cache.get(id(node))
+
+    def site_check(self, args, result=None, phase='pre'):
+        """Call-site contract of the function under verification (sites={call ordinal: ...}): assertions over the
+        caller's locals + `arg` before the call, ghost effect after it."""
+        c = self.cur
+        if c is None or not getattr(c, 'sites', None) or self.depth != 0 or self.spec_mode:
+            return
+        k = self.call_ordinal(self._cur_call)
+        site = c.sites.get(k)
+        if site is None:
+            return
+        env = dict(self.frame.locals)
+        env['arg'] = args[0] if args else VNone()
+        env['old'] = VOld(self.top_env, self.pre_state)
+        if phase == 'pre':
+            for pred in site.get('assert', []):
+                for label, term in self.spec_terms(pred, env):
+                    self.oblige(f'site{k}:{label}', term, kind='assert', props=site.get('props'))
+                    self.assume(term)
+        else:
+            env['result'] = result
+            if site.get('effect'):
+                from . import hooks as _hooks
+                _hooks.EFFECTS[site['effect']](self, env, None)
+
     def external_call(self, name, selfv, args, kwargs, star=None):
         h = self.ext_contracts.get(name)
         if h is None:
             raise Unsupported(f'external call {name} has no assumed contract')
         self.extlog.append((name, selfv, args))
         self._star_arg = star
-        return h(self, selfv, args, kwargs)
+        self.site_check(args, phase='pre')
+        r = h(self, selfv, args, kwargs)
+        self.site_check(args, result=r, phase='post')
+        return r
 
 
 # ----------------------------------------------------------------------------------------------
@@ -981,6 +1035,16 @@ def _h_file_log(eng, name):
     return VRef(z3.Function('file_log', I, I)(name.term), ty.parse('list[any]'))
 
 
+def _h_desc_writes_ok(eng):
+    """Item assignments made on opaque (description) dictionaries so far only concern the keys 'model' and
+    'agent_index' (ghost overlay of pyvc.hooks.ext_any_setitem)."""
+    from .hooks import _overlay
+    has, val = _overlay(eng, getattr(eng, '_ghost_st', None))
+    x, k = z3.Int('ox'), z3.Int('ok')
+    return VBool(z3.ForAll([x, k], z3.Implies(z3.Select(z3.Select(has, x), k),
+                                              z3.Or(k == eng.ctx.strid('model'), k == eng.ctx.strid('agent_index')))))
+
+
 def _h_typeof(eng, x):
     return eng.type_of_value(x)
 
@@ -997,6 +1061,6 @@ SPEC_HELPERS = dict(pos_in=_h_pos_in, implies=_h_implies, iff=_h_iff, index_of=_
                     is_fresh=_h_is_fresh, same_elems=_h_same_elems, same_dict=_h_same_dict, typeof=_h_typeof, same=_h_same,
                     same_obj=_h_same, now=_h_now, was=_h_was, origin=_h_origin, by_lemma=_h_by_lemma, as_list=_h_as_list, is_ndarray=_h_is_ndarray,
                     is_list=_h_is_list, is_str_value=_h_is_str_value, iterable=_h_iterable, items_of=_h_items_of,
-                    rec_has=_h_rec_has, rec_get=_h_rec_get, as_dict=_h_as_dict, file_log=_h_file_log, agg_min=_agg('min'), agg_max=_agg('max'),
+                    rec_has=_h_rec_has, rec_get=_h_rec_get, as_dict=_h_as_dict, file_log=_h_file_log, desc_writes_ok=_h_desc_writes_ok, agg_min=_agg('min'), agg_max=_agg('max'),
                     agg_mean=_agg('mean'), agg_sum=_agg('sum'), agg_variance=_agg('variance'),
                     is_none=_h_is_none)
